@@ -15,6 +15,7 @@ from __future__ import annotations
 
 import functools
 import inspect
+import re
 import sys
 import typing
 
@@ -51,8 +52,9 @@ def forwardref(
 
     module = _resolve_module_name(name, module)
     if module is not None:
-        # Only a leading qualifier is the module; the text may contain it elsewhere.
-        name = name.removeprefix(f"{module}.")
+        # Every reference in the text may carry the qualifier (`mod.A | mod.B`); it is
+        #   one only at the start of a dotted name (not in `Item.Part` for a module `m`).
+        name = re.sub(rf"(?<![\w.]){re.escape(module)}\.", "", name)
 
     return ForwardRef(
         name,
